@@ -17,6 +17,7 @@ MODULES = [
     _mod("src/nested/zordercurve.rs", "../verif/verif_zoc.rs", "verif_zoc"),
     _mod("src/nested/mod.rs", "../verif/verif_uniq.rs", "verif_uniq"),
     _mod("src/nested/mod.rs", "../verif/verif_nb.rs", "verif_nb"),
+    _mod("src/nested/mod.rs", "../verif/verif_ring.rs", "verif_ring"),
 ]
 
 def _c(file, anchor, *attrs, **kw):
